@@ -245,6 +245,59 @@ def generate():
     out.append("Definition parser_call_sites_as_modelled : bool := %s.%s" % (
         astlib.coq_bool(bool(cs)), "" if why_c is None else "  (* %s *)" % why_c.replace("*)", "* )")))
 
+    def scanners():
+        """the lexer's scanners are plain character loops: no regular expressions (a pattern with nested quantifiers is exponential
+        on input that does not match, inside C code)"""
+        for n in pm.body:
+            if isinstance(n, (ast.Import, ast.ImportFrom)):
+                names = [a.name for a in n.names] + ([n.module] if isinstance(n, ast.ImportFrom) and n.module else [])
+                if any(x in ("re", "regex", "fnmatch") or x.startswith("re.") for x in names):
+                    raise ShapeError("klongpy/parser.py imports a regular-expression module")
+        for n in ast.walk(pm):
+            if isinstance(n, ast.Call) and isinstance(n.func, ast.Attribute) and n.func.attr in (
+                    "match", "fullmatch", "search", "finditer", "findall", "compile", "sub", "subn", "split") \
+                    and isinstance(n.func.value, ast.Name) and n.func.value.id in ("re", "regex"):
+                raise ShapeError("klongpy/parser.py calls re.%s" % n.func.attr)
+            if isinstance(n, ast.Call) and isinstance(n.func, ast.Attribute) and n.func.attr in ("match", "fullmatch", "search", "finditer"):
+                raise ShapeError("klongpy/parser.py calls .%s (a compiled pattern?)" % n.func.attr)
+        return True
+    sc, why_s = astlib.try_flag(scanners)
+    out.append("Definition scanners_are_character_loops : bool := %s.%s" % (
+        astlib.coq_bool(bool(sc)), "" if why_s is None else "  (* %s *)" % why_s))
+
+    def no_variable_reads():
+        """prog/_expr/_factor/_read_fn_args/_apply_adverbs and every method of KlongInterpreter they call (transitively) do not
+        read the variable context: no self._context, no self[...]; likewise read_cond/read_expr_array through `klong`"""
+        im = astlib.module("klongpy/interpreter.py")
+        cls = astlib.find_class(im, "KlongInterpreter")
+        methods = {n.name: n for n in cls.body if isinstance(n, (ast.FunctionDef, ast.AsyncFunctionDef))}
+        todo = ["prog", "_expr", "_factor", "_read_fn_args", "_apply_adverbs"]
+        seen = set()
+        while todo:
+            nm = todo.pop()
+            if nm in seen or nm not in methods:
+                continue
+            seen.add(nm)
+            for n in ast.walk(methods[nm]):
+                if isinstance(n, ast.Attribute) and isinstance(n.value, ast.Name) and n.value.id == "self":
+                    if n.attr == "_context":
+                        raise ShapeError("KlongInterpreter.%s reads self._context" % nm)
+                    if n.attr in methods:
+                        todo.append(n.attr)
+                if isinstance(n, ast.Subscript) and isinstance(n.value, ast.Name) and n.value.id == "self":
+                    raise ShapeError("KlongInterpreter.%s reads self[...]" % nm)
+        for fname in ("read_cond", "read_expr_array"):
+            fn = astlib.find_func(pm, fname)
+            for n in ast.walk(fn):
+                if isinstance(n, ast.Attribute) and isinstance(n.value, ast.Name) and n.value.id == "klong" and n.attr not in ("_expr",):
+                    raise ShapeError("%s uses klong.%s" % (fname, n.attr))
+                if isinstance(n, ast.Subscript) and isinstance(n.value, ast.Name) and n.value.id == "klong":
+                    raise ShapeError("%s reads klong[...]" % fname)
+        return True
+    nv, why_v = astlib.try_flag(no_variable_reads)
+    out.append("Definition parser_does_not_read_variables : bool := %s.%s" % (
+        astlib.coq_bool(bool(nv)), "" if why_v is None else "  (* %s *)" % why_v))
+
     ao, why = astlib.try_flag(arity_operand)
     out.append("Definition arity_scans_monad_operand : bool := %s.%s" % (
         astlib.coq_bool(bool(ao)), "" if why is None else "  (* shape not recognised: %s *)" % why))
@@ -606,6 +659,57 @@ def nestings(tier):
         yield ":{" + "[1 2] " * d + "}"
 
 
+def scanner_stress(tier):
+    """every one-character-per-iteration scanner on long inputs that do not end the way the scanner expects (a scanner that
+    backtracks, or re-scans, is linear on well-formed tokens and explodes on these)"""
+    lens = [8, 16, 24, 32, 48, 64, 200] if tier == "quick" else [8, 16, 20, 24, 28, 32, 40, 48, 64, 100, 200, 1000]
+    for n in lens:
+        tail = ("abcdefgh ijkl,mnop;qrs(tuv)wxyz[01]{23}" * (n // 20 + 1))[:n]
+        plain = "a" * n
+        for body in (tail, plain):
+            yield '"' + body                              # string literal without closing quote
+            yield 'f("' + body
+            yield '[1 "' + body
+            yield '{x,"' + body
+            yield '"ab""' + body                          # after a doubled quote
+            yield ':{["k" "' + body
+            yield ':"' + body                             # comment without closing quote
+            yield '1 :"' + body
+            yield ':"ab""' + body
+            yield '.comment("' + body
+            yield '.comment("zz")' + body                 # end marker never found
+        yield '"' + 'a""' * (n // 3)                      # doubled quotes to the end
+        yield '"' + '"" ' * (n // 3)
+        yield "a" * n                                     # long tokens of one class
+        yield "a" * n + "("
+        yield "." * n
+        yield "1" * min(n, 300)
+        yield "1" * min(n, 300) + "." + "1" * min(n, 300)
+        yield "1" + "e1" * (n // 2)
+        yield "1." * (n // 2)
+        yield "-" * n
+        yield "-" * n + "1"
+        yield "[" + "-1 " * (n // 3)
+        yield ":" * n
+        yield "::" * (n // 2) + "1"
+        yield "\\" * n
+        yield "\\~" * (n // 2)
+        yield "'" * n
+        yield "+" + "'" * n + "1"
+        yield "+" + ":\\" * (n // 2) + "[1]"
+        yield "0c" * (n // 2)
+        yield "0c" * (n // 2) + "0c"
+        yield "1 " + "0c"
+        yield " " * n + "0c"
+        yield " " * n
+        yield "\n" * n
+        yield ("\n" + " ") * (n // 2) + "1"
+        yield "1" + ";" * n
+        yield "0" * n + "c"
+        yield "`" * n
+        yield "@" * n + "1"
+
+
 def gen_cases(chk, rng):
     """yield (kind, text, evaluate?)"""
     tier = chk.tier
@@ -641,6 +745,10 @@ def gen_cases(chk, rng):
             yield "file", txt, False
     for t in nestings(tier):
         yield "nest", t, False
+    for t in scanner_stress(tier):
+        yield "scan", t, False
+    for t in NESTED_LITERAL_TEXTS:
+        yield "nestedlit", t, True
     for t in COLON_ADVERB_TEXTS:
         yield "colonadv", t, False
     for t in ["1e9", "25e+3", "1e+5", "1e-5", "12e3", "1e0", "1e1", "-1e3", "[1e3 2]", "1e99", "1e999", "1.5e3", "1e", "1e+", "1ee5", "1e5e5", "1e5.5"]:
@@ -669,6 +777,8 @@ class Oracle:
         self.ncheck = 0
         self.kv = impl.K()             # interpreter whose variables are rebound between parses of the same text
         self.fnval = self.kv.prog("{x}")[1][0]
+        import collections
+        self.kv_hist = collections.deque(maxlen=60)
         self.init_sentinels()
 
     def init_sentinels(self):
@@ -747,6 +857,12 @@ class Oracle:
             names = list(dict.fromkeys(NAME_RE.findall(text)))[:6]
             if names:
                 kv = self.kv
+                r0, _ = impl.parse(text, kv)          # before rebinding: kv has seen other texts, nothing else
+                c0 = ("ok", impl.dump_prog(r0[1])) if r0[0] == "ok" else r0
+                if c0 != c1:
+                    return {"kind": "reparse-after-other-texts-differs", "text": text, "case": kind, "history": list(self.kv_hist),
+                            "fresh_interpreter": repr(c1)[:300], "later": repr(c0)[:300]}, c1, n1
+                self.kv_hist.append(text)
                 for mode, val in (("data", 7), ("function", self.fnval)):
                     for nm in names:
                         try:
@@ -811,6 +927,8 @@ def job_cpu_budget(job):
         return 30.0 + 0.01 * n
     if k == "cache":
         return 30.0 + 0.02 * len(job[1])
+    if k == "replay":
+        return 30.0 + 0.01 * len(job[1])
     n = len(job[2]) if k in ("case", "mod") else len(job[1])
     return 15.0 + 0.005 * n
 
@@ -819,7 +937,7 @@ def job_text(job):
     k = job[0]
     if k in ("case", "mod"):
         return job[2]
-    if k in ("lex", "cache"):
+    if k in ("lex", "cache", "replay"):
         return job[1]
     if k == "hist":
         return job[2][-1][0]
@@ -867,6 +985,8 @@ class Worker:
             return self.history(job[1], job[2])
         if k == "cache":
             return {"bad": self.cache(job[1])}
+        if k == "replay":
+            return {"lines": self.replay(job[1], job[2], job[3])}
         raise ValueError("unknown job %r" % (k,))
 
     evd = 0
@@ -898,6 +1018,43 @@ class Worker:
                         break
                 return {"bad": bad, "count": n}
         return {"bad": None, "count": n, "max_ratio": orc.max_ratio}
+
+    def replay(self, text, history, module):
+        impl = self.impl
+        k = impl.K()
+        lines, kept = [], []
+        for h in history:
+            ht, hm = (h, None) if isinstance(h, str) else (h[0], h[1])
+            hr = impl.parse(ht, k, module=hm)[0]
+            note = ""
+            if hr[0] == "ok" and (ht in SENTINEL_DEFS or re.fullmatch(r"[A-Za-z][A-Za-z0-9]*::(7|\{x\})", ht)):
+                pr = hr[1][1]
+                impl.budgeted(lambda: [k.call(y) for y in pr], EVAL_BUDGET)
+                note = " (evaluated)"
+            lines.append("history   : %r module %s -> %s%s" % (ht, hm, hr[0], note))
+            if hr[0] == "ok":
+                kept.append((ht, hr[1][1], repr([impl.dump(y) for y in hr[1][1]])))
+        want = self.fresh_parse(text, module)
+        r1, n1 = impl.parse(text, k, module=module)
+        c1 = ("ok", impl.dump_prog(r1[1])) if r1[0] == "ok" else r1
+        r2, n2 = impl.parse(text, k, module=module)
+        c2 = ("ok", impl.dump_prog(r2[1])) if r2[0] == "ok" else r2
+        for ht, hp, hd in kept:
+            now = repr([impl.dump(y) for y in hp])
+            if now != hd:
+                lines.append("earlier program changed by the parse of the text: %r" % ht)
+                lines.append("   before : " + hd[:300])
+                lines.append("   after  : " + now[:300])
+        lines.append("fresh interpreter : %s" % repr(want)[:300])
+        lines.append("actual #1 : %s (%d events of %d)" % (repr(c1)[:300], n1, BUDGET(len(text))))
+        lines.append("actual #2 : %s (%d events)" % (repr(c2)[:300], n2))
+        if r1[0] == "ok" and can_eval(text) and not history:
+            p1 = r1[1][1]
+            e1, _ = impl.budgeted(lambda: [k.call(y) for y in p1], EVAL_BUDGET)
+            e2, _ = impl.budgeted(lambda: [k.call(y) for y in p1], EVAL_BUDGET)
+            lines.append("evaluated twice  : %s / %s" % (repr(("ok", impl.dump_value(e1[1])) if e1[0] == "ok" else e1)[:200],
+                                                          repr(("ok", impl.dump_value(e2[1])) if e2[0] == "ok" else e2)[:200]))
+        return lines
 
     def fresh_parse(self, text, md):
         impl = self.impl
@@ -1412,7 +1569,24 @@ def check_numbers(chk, texts=None):
             p.wait()
 
 
-CACHE_TEXTS = ["a::7;a", "b::{x+1};b(2)", "a", ".module(:zz);a", "q::3", ":a", "[:a :b]", ":a,:b", "{:q}()", "0c:,:s",
+# literals nested in literals, then fetched and extended in place: evaluation must not change the parsed program
+NESTED_LITERAL_TEXTS = [
+    'L::[:{[1 2]}];d::L@0;e::d();n::#e;e,(10+n),n;n',
+    'reg::[:{[0 0]} :{[1 1]}];a::reg@1;b::a();b,(#b),7;#b',
+    'L::[[1 :{["k" 1]}]];d::(L@0)@1;e::d();e,"n",#e;#e',
+    'f::{[d e];d::*[:{[0 0]}];e::d();e,x,1;#e};f(5)+f(6)',
+    'd:::{[1 2]};n::#d;d,(10+n),n;n',
+    'L::[1 2 3];L::L,#L;#L',
+    'L::[:{[1 2]}];e::L@0;e,[5 6];#e',
+    'L::[[1 2] [3 4]];r::L@0;r,9;#r',
+    'L::["ab" "cd"];r::L@0;r,"z";#r',
+    'D:::{[1 [1 2]]};r::D?1;r,9;#r',
+    'L::[:{[1 2]} :{[3 4]}];#*L',
+    '[:{[1 2]}]@0',
+    '*[:{[1 2]}]',
+    '{[e];e::*[[1 2]];e,x;#e}(5)',
+]
+CACHE_TEXTS = NESTED_LITERAL_TEXTS + ["a::7;a", "b::{x+1};b(2)", "a", ".module(:zz);a", "q::3", ":a", "[:a :b]", ":a,:b", "{:q}()", "0c:,:s",
                "[1 :{[1 2]}],1", "[:{[1 2]}]", "[1 2 3],4", "[[1] :{[1 2] [3 4]}],[2]", "q::[1 2];q,3", "[1 [2 :{[3 4]}]],5"]
 MODULES = ["m", "geo2"]
 NAME_RE = re.compile(r"[A-Za-z][A-Za-z0-9]*")
@@ -1509,36 +1683,26 @@ def replay(path):
         return 0
     chk.generate(generate())
     chk.build_model()
-    impl = Impl()
+    aux = Impl(instrument=False)
+    m = aux.mres(chk.run_model([model_req(text) if not rp.get("module") else model_req_m(text, rp["module"])])[0])
+    sup = Supervisor(chk, 600.0)
     try:
-        kept = []
-        for h in history:
-            ht, hm = (h, None) if isinstance(h, str) else (h[0], h[1])
-            hr = impl.parse(ht, module=hm)[0]
-            print("history   :", repr(ht), "module", hm, "->", hr[0])
-            if hr[0] == "ok":
-                kept.append((ht, hr[1][1], repr([impl.dump(y) for y in hr[1][1]])))
-        r1, n1 = impl.parse(text)
-        r2, n2 = impl.parse(text)
-        c1 = ("ok", impl.dump_prog(r1[1])) if r1[0] == "ok" else r1
-        c2 = ("ok", impl.dump_prog(r2[1])) if r2[0] == "ok" else r2
-        m = impl.mres(chk.run_model([model_req(text)])[0])
+        job = ["replay", text, history, rp.get("module")]
+        res = sup.run([job])[0]
     finally:
-        impl.close()
-    for ht, hp, hd in kept:
-        try:
-            now = repr([impl.dump(y) for y in hp])
-        except Exception as e:   # noqa
-            now = "dump failed: %r" % e
-        if now != hd:
-            print("earlier program changed by the parse of the text:", repr(ht))
-            print("   before :", hd[:300])
-            print("   after  :", now[:300])
-    print("text      :", repr(text))
-    print("expected  : terminates within %d events, both parses equal and equal to a fresh interpreter's; model says %s" % (BUDGET(len(text)), repr(m)[:300]))
-    print("actual #1 : %s (%d events)" % (repr(c1)[:300], n1))
-    print("actual #2 : %s (%d events)" % (repr(c2)[:300], n2))
+        sup.close()
+    print("text      :", repr(text[:300]), "(%d characters)" % len(text))
+    print("expected  : terminates within %d events and %.0f s of CPU, both parses equal and equal to a fresh interpreter's, "
+          "earlier programs unchanged; model says %s" % (BUDGET(len(text)), job_cpu_budget(job), repr(m)[:300]))
+    if res is None:
+        print("actual    : not run")
+    elif res.get("killed"):
+        print("actual    : killed by the watchdog:", {k: v for k, v in res.items() if k != "killed"})
+    else:
+        for ln in res["lines"]:
+            print(ln)
     return 0
+
 
 # ---------------------------------------------------------------- maintenance helper (not used by a check run)
 def regen_cost_model():
